@@ -30,7 +30,12 @@ class HTTPProtocol(BaseGopherProtocol):
         # Slurp up remaining lines.
         self.httpheaders = {}
         while 1:
-            line = self.rfile.readline().decode(errors="surrogateescape")
+            try:
+                line = self.rfile.readline().decode(errors="surrogateescape")
+            except TimeoutError:
+                # The request line is complete; a client that does not finish
+                # its header block in time is answered with what it sent.
+                break
             if not len(line):
                 break
             line = line.strip()
